@@ -394,17 +394,18 @@ ParseHostname(hn) ==
               h1 == IF v4.ok THEN v4.v ELSE r0.v IN
           IF \E i \in 1..Len(h1) : h1[i] \in ForbiddenHostChars THEN [ok |-> "err"] ELSE [ok |-> "ok", v |-> h1]
 
-\* parse_host: [ok, hostname, port]   (port 0 = None)
+\* parse_host: [ok, hostname, port]   (port PortNone = None; 0 is a port like any other)
+PortNone == 0 - 1
 ParseHost(host) ==
-  IF LastIs(host, RBR) THEN LET r == ParseHostname(host) IN [ok |-> r.ok, hostname |-> IF r.ok = "ok" THEN r.v ELSE <<>>, port |-> 0]
+  IF LastIs(host, RBR) THEN LET r == ParseHostname(host) IN [ok |-> r.ok, hostname |-> IF r.ok = "ok" THEN r.v ELSE <<>>, port |-> PortNone]
   ELSE LET rp == RPartition(host, COLON) IN
        IF rp[2] THEN
           LET pi == PyInt(rp[3], 10) IN
           IF ~pi.ok \/ (pi.neg /\ ~IsZeroN(pi.n)) \/ pi.n.ov \/ pi.n.b[3] # 0 \/ pi.n.b[4] # 0
-          THEN [ok |-> "err", hostname |-> <<>>, port |-> 0]
+          THEN [ok |-> "err", hostname |-> <<>>, port |-> PortNone]
           ELSE LET r == ParseHostname(rp[1]) IN
                [ok |-> r.ok, hostname |-> IF r.ok = "ok" THEN r.v ELSE <<>>, port |-> pi.n.b[1] + 256 * pi.n.b[2]]
-       ELSE LET r == ParseHostname(host) IN [ok |-> r.ok, hostname |-> IF r.ok = "ok" THEN r.v ELSE <<>>, port |-> 0]
+       ELSE LET r == ParseHostname(host) IN [ok |-> r.ok, hostname |-> IF r.ok = "ok" THEN r.v ELSE <<>>, port |-> PortNone]
 
 NormRel(url, scheme, rem0, enc) ==
   LET rem  == IF StartsWith(rem0, <<SLASH, SLASH>>) THEN From(rem0, 3) ELSE rem0
@@ -439,7 +440,7 @@ NormRel(url, scheme, rem0, enc) ==
    ELSE
     LET username == Unquote(pu[1], enc)
         password == Unquote(pu[3], enc)
-        port == IF ph.port = 0 THEN DefaultPort(scheme) ELSE ph.port
+        port == IF ph.port = PortNone THEN DefaultPort(scheme) ELSE ph.port
         v6   == StartsWith(host, <<LBR>>)
         \* the .url property (normalize_userinfo_text): the user info AS WRITTEN is encoded, its escapes are undone
         \* octet-wise, and the octets are escaped again - so octets that were escaped stay what they were, whatever
